@@ -379,3 +379,52 @@ def face_paths(F):
 
 def face_path_str(F, nm):
     return '.'.join(face_paths(F)[nm])
+
+
+# --- element-wise stream semantics -----------------------------------------------------------------------
+SOURCE_ADAPTORS = ('iter', 'into_iter', 'par_iter', 'into_par_iter', 'iter_mut', 'par_iter_mut')
+ELEMENTWISE_FN = ('map', 'filter', 'filter_map', 'copied', 'cloned', 'inspect')
+
+
+def opt_bind(v, fn):
+    """Option-valued abstract value >>= fn (fn: payload -> Option-valued abstract value)."""
+    if isinstance(v, I.Ite):
+        return I.ite(v.c, opt_bind(v.a, fn), opt_bind(v.b, fn))
+    if isinstance(v, I.St) and v.variant == 'Some':
+        return fn(v.fields[0])
+    if isinstance(v, I.St) and v.variant == 'None':
+        return I.NONE
+    raise AnalysisIncomplete('element of a stream is not a determined Option: %r' % (v,))
+
+
+def stream_element(ip, chain, elem):
+    """What a chain of element-wise adaptors (as returned by stream_chain, outermost first) yields for ONE element `elem` of
+    the source: Some(result) or None (filtered out), as an abstract Option.  -> (value, index of the source adaptor in chain)"""
+    from ..tables import call_fn_value
+    src = None
+    for i, (name, args) in enumerate(chain):
+        if name in SOURCE_ADAPTORS:
+            src = i
+            break
+    if src is None:
+        raise AnalysisIncomplete('stream has no recognised source: %s' % [n for n, _ in chain])
+    val = I.some(elem)
+    for name, args in reversed(chain[:src]):
+        if name in ('copied', 'cloned'):
+            val = opt_bind(val, lambda x: I.some(I.read_lv(x.lv) if isinstance(x, I.Ref) else x))
+        elif name == 'inspect':
+            continue
+        elif name == 'map':
+            val = opt_bind(val, lambda x, f=args[0]: I.some(call_fn_value(ip, f, [x], '?')))
+        elif name == 'filter_map':
+            val = opt_bind(val, lambda x, f=args[0]: call_fn_value(ip, f, [x], '?'))
+        elif name == 'filter':
+            def keep(x, f=args[0]):
+                c = call_fn_value(ip, f, [ip.ref_to(x)], 'bool')
+                if not isinstance(c, I.B):
+                    raise AnalysisIncomplete('filter predicate is not a condition: %r' % (c,))
+                return I.ite(c, I.some(x), I.NONE)
+            val = opt_bind(val, keep)
+        else:
+            raise AnalysisIncomplete('adaptor %s is not element-wise' % name)
+    return val, src
